@@ -148,6 +148,12 @@ def syntax_matrix():
     out.append(("for (final int ...)", "function main() -> void { int n = 0; for (final int v = 1; n < 1; n = n + v) { echo(\"b\"); } echo(\"m\"); }", ["b", "m"]))
     out.append(("for (expression; ...)", "function main() -> void { int n = 5; for (n = 0; n < 1; n = n + 1) { echo(\"b\"); } echo(\"m\"); }", ["b", "m"]))
     out.append(("for (; ...)", "function main() -> void { int n = 0; for (; n < 1; n = n + 1) { echo(\"b\"); } echo(\"m\"); }", ["b", "m"]))
+    for t, lit, cond, step in (("long", "0L", "v < 1L", "v = v + 1L"), ("boolean", "true", "v", "v = false")):
+        out.append(("for (%s ...)" % t, "function main() -> void { for (%s v = %s; %s; %s) { echo(\"b\"); } echo(\"m\"); }" % (t, lit, cond, step), ["b", "m"]))
+    for dn, d in (("-> void", "public destructor() -> void { echo(\"x\"); }"), ("-> void = default", "public destructor() -> void = default;"),
+                  ("-> ClassName", "public destructor() -> Q { echo(\"x\"); }"), ("-> ClassName = default", "public destructor() -> Q = default;")):
+        out.append(("destructor %s" % dn, "class Q { public constructor() -> Q { } %s }\nfunction main() -> void { Q o = new Q(); destroy o; echo(\"m\"); }" % d,
+                    (["x"] if "echo" in d else []) + ["m"]))
     out.append(("for (qubit ...)", "function main() -> void { int n = 0; for (qubit v; n < 1; n = n + 1) { echo(\"b\"); } echo(\"m\"); }", ["b", "m"]))
     # the conditional statement on every kind of condition
     for cn, pre, cond in (("comparison", "int a = 1;", "a < 2"), ("parenthesised", "int a = 1;", "(a < 2)"), ("logical", "boolean a = true;", "a && !false || false"),
